@@ -15,8 +15,9 @@ import Mathlib.Data.List.Basic
      opens under the key only if it is one of the tuples the sender sealed for this message, and then it
      is the sealed value): `aead_tamper_evident` (every accepted string is the sender's cipher text),
      with the corollaries `aead_reorder_detected`, `aead_truncation_detected`, and `aead_ad_bound`.
-     Neither proof uses distinctness of the nonces (the library's nonces repeat: `nonceStep`); the
-     chunk index and the total length in the additional data carry the argument.
+     The nonces of distinct chunk indices are distinct (`aead_nonces_distinct`: every chunk starts
+     from the starting IV, `nonceStep`), but neither proof needs that; the chunk index and the total
+     length in the additional data carry the argument.
   3. Signatures: `validity_logic`, `validity_expired_flag`, `weak_hash_refused`, `left16_check`,
      `left16_pass`, `verifySig_digest` (the verdict depends on the signed data through the digest only),
      `hash_input_injective_{binary,text,standalone,key,key2,cert}` and `sigTrailer_inj` (what is hashed
@@ -900,7 +901,7 @@ theorem decTail_honest (sealf : Seal) (open_ : Open) (k : Bytes) (aead is cd : N
         simp only at hr1 hr2
         have hr : decTail open_ k aead is cd hdr base c' (idx + 1) ivbuf
             (rest.drop (cd + 16)) = (0, (decTail open_ k aead is cd hdr base c' (idx + 1)
-              (nonceStep aead ivbuf idx) (rest.drop (cd + 16))).2) := Prod.ext hr1 rfl
+              ivbuf (rest.drop (cd + 16))).2) := Prod.ext hr1 rfl
         cases c with
         | zero =>
           exfalso
@@ -1033,6 +1034,62 @@ theorem aead_ad_bound (sealf : Seal) (open_ : Open)
   · simp only [List.append_assoc] at h1
     exact hne (List.append_inj h1 (by rw [hlen, hlen])).1
 
+theorem xor_left_cancel {a x y : Nat} (h : a ^^^ x = a ^^^ y) : x = y := by
+  rw [← xor_cancel_left a x, h, xor_cancel_left]
+
+theorem zipWith_xor_cancel (w : Bytes) : ∀ (x y : Bytes), x.length = w.length → y.length = w.length →
+    List.zipWith (· ^^^ ·) w x = List.zipWith (· ^^^ ·) w y → x = y := by
+  induction w with
+  | nil =>
+    intro x y hx hy _
+    rw [List.length_nil] at hx hy
+    rw [List.eq_nil_of_length_eq_zero hx, List.eq_nil_of_length_eq_zero hy]
+  | cons a w ih =>
+    intro x y hx hy h
+    cases x with
+    | nil => simp at hx
+    | cons b x =>
+      cases y with
+      | nil => simp at hy
+      | cons c y =>
+        simp only [List.zipWith_cons_cons, List.cons.injEq] at h
+        simp only [List.length_cons, Nat.add_right_cancel_iff] at hx hy
+        rw [xor_left_cancel h.1, ih x y hx hy h.2]
+
+/-- the eight-octet window at `off` of a (possibly truncated) buffer `A ‖ Z ‖ C` -/
+theorem xor_window (A Z C : Bytes) (off n : Nat) (hA : A.length = off) (hZ : Z.length = 8)
+    (hn : off + 8 ≤ n) : (((A ++ Z ++ C).take n).drop off).take 8 = Z := by
+  subst hA
+  rw [List.drop_take, List.take_take, List.append_assoc, List.drop_left,
+    Nat.min_eq_left (by omega), ← hZ, List.take_left]
+
+theorem xorAt_window_inj (buf : Bytes) (off n i j : Nat) (hlen : off + 8 ≤ buf.length) (hn : off + 8 ≤ n)
+    (hi : i < 2 ^ 64) (hj : j < 2 ^ 64)
+    (h : (xorAt buf off (be8 i)).take n = (xorAt buf off (be8 j)).take n) : i = j := by
+  unfold xorAt at h
+  have hA : (buf.take off).length = off := by rw [List.length_take]; omega
+  have hw : ((buf.drop off).take 8).length = 8 := by
+    rw [List.length_take, List.length_drop]; omega
+  have hZ : ∀ v, (List.zipWith (· ^^^ ·) ((buf.drop off).take 8) (be8 v)).length = 8 := by
+    intro v; rw [List.length_zipWith, hw, length_be8]; rfl
+  have h' : (List.drop off ((buf.take off ++ List.zipWith (· ^^^ ·) ((buf.drop off).take 8) (be8 i) ++
+        buf.drop (off + 8)).take n)).take 8 =
+      (List.drop off ((buf.take off ++ List.zipWith (· ^^^ ·) ((buf.drop off).take 8) (be8 j) ++
+        buf.drop (off + 8)).take n)).take 8 := by rw [h]
+  rw [xor_window _ _ _ off n hA (hZ i) hn, xor_window _ _ _ off n hA (hZ j) hn] at h'
+  exact be8_inj hi hj (zipWith_xor_cancel _ _ _ (by rw [length_be8, hw]) (by rw [length_be8, hw]) h')
+
+/-- **the nonces of distinct chunks are distinct**: every chunk index below 2^64 (and the final tag's
+    index) gives another nonce from the same starting IV, for EAX (16 octets, index in octets 8–15)
+    and OCB (15 octets, index in octets 7–14) -/
+theorem aead_nonces_distinct (aead : Nat) (ivbuf : Bytes) (i j : Nat) (hae : aead = 1 ∨ aead = 2)
+    (hlen : ivbuf.length = 16) (hi : i < 2 ^ 64) (hj : j < 2 ^ 64) (hne : i ≠ j) :
+    (nonceStep aead ivbuf i).take (aeadIvLength aead) ≠ (nonceStep aead ivbuf j).take (aeadIvLength aead) := by
+  intro h
+  rcases hae with rfl | rfl
+  · exact hne (xorAt_window_inj ivbuf 8 16 i j (by omega) (by omega) hi hj h)
+  · exact hne (xorAt_window_inj ivbuf 7 15 i j (by omega) (by omega) hi hj h)
+
 /-! ### 3. signatures -/
 
 /-- **validity**: exactly — not expired, not older than the key, not more than 25 hours ahead of the
@@ -1102,6 +1159,18 @@ theorem left16_pass (pk : Bytes → Nat) (s : Sig) (pp : PkParams) (h0 h1 : Nat)
   simp only [List.length_cons, List.length_nil, List.getD_cons_zero, List.getD_cons_succ]
   rw [if_neg (by simp)]
   split <;> simp_all
+
+/-- **an unknown hash algorithm is refused**: the digest stays empty and fails the quick check -/
+theorem unknown_hash_refused (H : Nat → Bytes → Bytes) (pk : Bytes → Nat) (s : Sig) (pp : PkParams)
+    (t : Target) (hh : hashLength s.hashalgo = 0) (hl : s.left.length = 2) :
+    verifySig H pk s pp t = false := by
+  unfold verifySig
+  split
+  · rfl
+  · unfold hashCompute
+    rw [if_pos (Or.inl hh)]
+    unfold checkIntegrity
+    rw [if_pos ⟨hl, Or.inl (by simp)⟩]
 
 /-- **the verdict depends on the signed data through the digest only**: two targets whose hash
     inputs have the same digest are accepted or refused alike — so a changed document, key or user ID
